@@ -506,6 +506,29 @@ def r06_8(ctx):
     return r
 
 
+def r06_9(ctx):
+    r = Rule("R06.9", "every slot temporary that is handed out is declared: the function that makes `_slotN` pushes its declarator on every path",
+             "a conditional declaration leaves `_slot = f()` assigning an undeclared variable (a ReferenceError in a module)")
+    from ..cfg import calls, callee_name
+    from .influence import flow_of
+    from .mirflow import self_field_of
+    from .state import first_field
+    b = C.role_or_fail(ctx, r, "slot_ident_fn")
+    if not b:
+        return r
+    mb = C.mir_of(ctx, b)
+    r.saw(mb["path"])
+    g = C.cfg_of(ctx, mb)
+    fl = flow_of(ctx, mb)
+    pushes = {i for i, t in calls(mb) if callee_name(t).endswith("Vec::<T, A>::push") and t["args"]
+              and "injecting_vars" in {first_field(f) for f in self_field_of(fl.op_sources(t["args"][0]))}}
+    ok = bool(pushes) and g.must_pass(pushes)
+    r.ob("the declarator of a new slot temporary is pushed on every path", ok, C.mloc(mb, mb),
+         "injecting_vars.push(..) in bb%s on every path" % sorted(pushes) if ok else
+         ("a path returns the identifier (bb%s) without declaring it" % g.escaping_exit(pushes) if pushes else "no push to injecting_vars"))
+    return r
+
+
 def _places_in(o):
     if isinstance(o, dict):
         if "l" in o and "s" in o:
@@ -521,7 +544,7 @@ def _places_in(o):
 def rules(ctx):
     from . import c15
     from . import c20
-    return [r06_1, r06_2, r06_3, r06_5, r06_6, r06_7, r06_8, c15.r15_2, c20.r20_5]
+    return [r06_1, r06_2, r06_3, r06_5, r06_6, r06_7, r06_8, r06_9, c15.r15_2, c20.r20_5]
 
 
 EXPLANATION = (
